@@ -60,8 +60,9 @@ def normProps (t : String) : String := if t == "-" then "{}" else t
 def normKind (t : String) : String := if t == "-" then "" else t
 def kindTok (k : String) : String := if k == "" then "-" else k
 
+/-- the model's `Dump` loop over the declared graphs -/
 def dumpAll (st : St) (batch shard : Nat) : Except DumpErr (List (GraphDump P B B)) :=
-  st.graphs.mapM (fun g => dumpGraph idCodec g batch shard)
+  Dawgs.C18.dumpAll idCodec batch shard st.graphs
 
 def dumpErrStr : DumpErr → String
   | .scan .shortRead => "scan-short"
@@ -84,19 +85,12 @@ def loadErrStr : LoadErr → String
 def alloc (k : Nat) : Nat := 1000 + 3 * k
 def allocE (k : Nat) : Nat := 5000 + 2 * k
 
-/-- `Load`: verify every graph first, then load graph by graph with the creation counters running on -/
-def loadAll (ds : List (GraphDump P B B)) (batch : Nat) : Except LoadErr (List LoadedGraph) := do
-  for d in ds do
-    verifyFragments idCodec d.files d.manifest
-  let mut out : List LoadedGraph := []
-  let mut nc := 0
-  let mut ec := 0
-  for d in ds do
-    let (dst, idmap) ← load idCodec d batch alloc allocE { nodes := [], edges := [], nodeCtr := nc, edgeCtr := ec }
-    nc := dst.nodeCtr
-    ec := dst.edgeCtr
-    out := out ++ [{ dst := dst, idmap := idmap }]
-  return out
+/-- the model's `Load`: verify every graph against the whole directory, then load graph by graph with the
+creation counters running on and one id map per graph -/
+def loadAll (ds : List (GraphDump P B B)) (batch : Nat) : Except LoadErr (List LoadedGraph) :=
+  match Dawgs.C18.loadAll idCodec (allFiles ds) (ds.map (fun d => d.manifest)) batch alloc allocE 0 0 with
+  | .error e => .error e
+  | .ok rs => .ok (rs.map (fun r => { dst := r.1, idmap := r.2 }))
 
 def backName (m : IdMap) (newId : Nat) : String :=
   match m.find? (fun p => p.2 == newId) with
